@@ -220,6 +220,7 @@ def run(ctx: Ctx) -> None:
     from .c04 import reentrancy_rule
 
     ctx.call(reentrancy_rule, "10")
+    ctx.call(T.t_a2b, "13/T.A2b")
     from . import atoms as A
 
     ctx.call(A.definitions, "12")
